@@ -30,8 +30,8 @@ CONFIGS = {
         "thorough": ["Asm_sym_t.cfg", "Asm_chunk_t.cfg", "Asm_chunk2_t.cfg", "Asm_mini5_t.cfg"],
     },
 }
-SAMPLE = {"C12": {"quick": 5000, "thorough": 60000},
-          "C13": {"quick": 4000, "thorough": 40000}}
+SAMPLE = {"C12": {"quick": 4000, "thorough": 60000},
+          "C13": {"quick": 3000, "thorough": 40000}}
 MC_TIMEOUT = {"quick": 300, "thorough": 1500}
 WORKERS = int(os.environ.get("VERIF_TLC_WORKERS", "16"))
 
